@@ -255,3 +255,62 @@ func SortedKeys[T any](m map[string]T) []string {
 	sort.Strings(ks)
 	return ks
 }
+
+// Field is one struct field of an emitted type.
+type Field struct {
+	Name string
+	Type string
+	Tag  string
+}
+
+// StructFields lists the fields of struct type typeName (nil if it is not a struct).
+func StructFields(fset *token.FileSet, f *ast.File, typeName string) []Field {
+	var out []Field
+	for _, d := range f.Decls {
+		gd, ok := d.(*ast.GenDecl)
+		if !ok || gd.Tok != token.TYPE {
+			continue
+		}
+		for _, sp := range gd.Specs {
+			ts := sp.(*ast.TypeSpec)
+			if ts.Name.Name != typeName {
+				continue
+			}
+			st, ok := ts.Type.(*ast.StructType)
+			if !ok {
+				return nil
+			}
+			for _, fl := range st.Fields.List {
+				var b bytes.Buffer
+				_ = printer.Fprint(&b, fset, fl.Type)
+				tag := ""
+				if fl.Tag != nil {
+					tag = fl.Tag.Value
+				}
+				for _, n := range fl.Names {
+					out = append(out, Field{n.Name, b.String(), tag})
+				}
+			}
+		}
+	}
+	return out
+}
+
+// UnderlyingOf returns the printed type expression of type typeName.
+func UnderlyingOf(fset *token.FileSet, f *ast.File, typeName string) string {
+	for _, d := range f.Decls {
+		gd, ok := d.(*ast.GenDecl)
+		if !ok || gd.Tok != token.TYPE {
+			continue
+		}
+		for _, sp := range gd.Specs {
+			ts := sp.(*ast.TypeSpec)
+			if ts.Name.Name == typeName {
+				var b bytes.Buffer
+				_ = printer.Fprint(&b, fset, ts.Type)
+				return b.String()
+			}
+		}
+	}
+	return ""
+}
